@@ -2,6 +2,8 @@
 // C07 C08 C09 C10 C12 C15 C16 C19.
 #pragma once
 #include "opt_world.hpp"
+#include <cfenv>
+#include <fenv.h>
 
 namespace optw
 {
@@ -180,6 +182,15 @@ struct Interp : World<Spline, TM, SM>
             SIM_CHECK(msg.empty() == want, "check_validity_message", when << ": checkValidity message " << (msg.empty() ? "empty" : "present") << " for a problem that is " << (want ? "valid" : "invalid"));
             SIM_CHECK(H.o->checkValidity() == want, "check_validity", when << ": checkValidity(nullptr) disagrees");
             msg_known[k] = msg_known[k] || !want; // an invalid verdict was just (re)reported
+        }
+        if (H.m.rejected_early)
+        {
+            // a read-only re-check of the (older) stored problem must not revive the rejected initialisation
+            std::string ignored;
+            (void)H.o->checkValidity(&ignored);
+            (void)H.o->checkValidity();
+            SIM_CHECK(H.o->isValid() == want && static_cast<bool>(*H.o) == want, "validity_flag",
+                      when << ": isValid() changed after a read-only checkValidity() query (the last initialisation was rejected)");
         }
         if (msg_known[k] && (H.m.configured || H.m.rejected_early))
             SIM_CHECK(H.o->getLastError().empty() == want, "last_error", when << ": getLastError() is " << (H.o->getLastError().empty() ? "empty" : "non-empty") << " but the problem is "
@@ -552,10 +563,25 @@ struct Interp : World<Spline, TM, SM>
             ccs[e].prog = &prog;
             ccs[e].nseg = m.prob.N();
         }
+        // some evaluators may work on a SECOND optimizer object: a copy taken right now (while the layout is still cold,
+        // if this is a cold start) and given another integration resolution; both objects are evaluated at the same time
+        std::unique_ptr<Opt> second;
+        Model m2 = m;
+        std::vector<char> on_second((size_t)n, 0);
+        if ((o.I(5) & 8) && !ws_copies)
+        {
+            second.reset(new Opt(*H.o));
+            m2.K = 1 + (m.K + 100) % 256;
+            second->setIntegralNumSteps(m2.K);
+            for (int e = 0; e < n; ++e) on_second[(size_t)e] = (char)(e & 1);
+            ctx.count("probe.concurrent_on_two_optimizers");
+        }
         std::vector<int> ids;
         Opt *optr = H.o;
+        Opt *optr2 = second.get();
         for (int e = 0; e < n; ++e)
-            ids.push_back(S.spawn([&, e, optr]() {
+            ids.push_back(S.spawn([&, e, optr, optr2]() {
+                Opt *use = on_second[(size_t)e] ? optr2 : optr;
                 yield_point("evaluator_start");
                 if (abort_f[e])
                 {
@@ -566,10 +592,10 @@ struct Interp : World<Spline, TM, SM>
                     ca.abort_functor = abort_f[e];
                     long total = abort_f[e] == 3 ? (long)m.prob.N() * (m.K + 1) : 1;
                     ca.abort_call = (long)(abort_c[e] % total);
-                    try { (void)W::call_eval(*optr, xs[(e + 1) % n], ca, wsp[e], exs[e], three[e]); }
+                    try { (void)W::call_eval(*use, xs[(e + 1) % n], ca, wsp[e], exs[e], three[e]); }
                     catch (const InjectedAbort &) { ctx.count("fault.callback_abort"); }
                 }
-                res[e] = W::call_eval(*optr, xs[e], ccs[e], wsp[e], exs[e], three[e]);
+                res[e] = W::call_eval(*use, xs[e], ccs[e], wsp[e], exs[e], three[e]);
             }, "evaluator"));
         bool fault_done = false;
         if (fault != 0)
@@ -608,7 +634,26 @@ struct Interp : World<Spline, TM, SM>
         ctx.mark_nontrivial();
         ctx.count("probe.concurrent_phase");
         ctx.count(std::string("probe.concurrent_evaluators_") + std::to_string(n));
-        for (int e = 0; e < n; ++e) this->check_vs_twin(m, xs[e], three[e], res[e], cold ? "concurrent evaluate (cold)" : "concurrent evaluate (warm)");
+        for (int e = 0; e < n; ++e) this->check_vs_twin(on_second[(size_t)e] ? m2 : m, xs[e], three[e], res[e], cold ? "concurrent evaluate (cold)" : "concurrent evaluate (warm)");
+        if ((o.I(5) & 16) && fault == 0)
+        {
+            // strictly sequential use from another thread: one fiber evaluates WITHOUT a workspace (the built-in one),
+            // is joined, and the exposed spline must be the one of that evaluation
+            Eigen::VectorXd xo = this->gen_x(m, seed ^ 0x0dd, 1);
+            EvalResult ro;
+            CC co;
+            co.prog = &prog;
+            co.nseg = m.prob.N();
+            Opt *op1 = H.o;
+            std::vector<int> one;
+            one.push_back(S.spawn([&, op1]() { ro = W::call_eval(*op1, xo, co, nullptr, SplineTrajectory::SerialExecutor(), true); }, "other-thread"));
+            S.join(one);
+            H.m.has_internal_ws = true;
+            this->check_vs_twin(H.m, xo, true, ro, "evaluate with the built-in workspace from another thread");
+            this->check_exposed_spline(H, xo);
+            snapshot_exposed(target);
+            ctx.count("probe.builtin_workspace_from_other_thread");
+        }
         (void)fault_done;
         check_exposed_untouched("after concurrent phase", -1);
     }
@@ -677,8 +722,20 @@ struct Interp : World<Spline, TM, SM>
             this->check_vs_twin(m, x, three, after, "evaluate after a cancelled checkGradients on the same workspace");
         }
         typename Opt::GradientCheckResult res;
-        if (three) res = defaults ? H.o->checkGradients(x, tc, wc, rc, w) : H.o->checkGradients(x, tc, wc, rc, w, eps, tol);
-        else res = defaults ? H.o->checkGradients(x, tc, rc, w) : H.o->checkGradients(x, tc, rc, w, eps, tol);
+        {
+            // part of the runs: the caller's floating-point environment traps invalid operations and divisions by zero
+            // (feenableexcept); a self-check of finite, correct data must not raise either
+            struct Traps
+            {
+                int old = 0;
+                bool on;
+                explicit Traps(bool enable) : on(enable) { if (on) { std::feclearexcept(FE_ALL_EXCEPT); old = feenableexcept(FE_INVALID | FE_DIVBYZERO); } }
+                ~Traps() { if (on) { std::feclearexcept(FE_ALL_EXCEPT); fedisableexcept(FE_ALL_EXCEPT); if (old > 0) feenableexcept(old); } }
+            } traps((o.I(7) & 2) != 0 && prog.style != 2);
+            if (traps.on) ctx.count("probe.selfcheck_with_fp_traps");
+            if (three) res = defaults ? H.o->checkGradients(x, tc, wc, rc, w) : H.o->checkGradients(x, tc, wc, rc, w, eps, tol);
+            else res = defaults ? H.o->checkGradients(x, tc, rc, w) : H.o->checkGradients(x, tc, rc, w, eps, tol);
+        }
         if (!w) H.m.has_internal_ws = true;
         if (gf.functor) { ctx.count(std::string("fault.grad_fault.functor") + std::to_string(gf.functor)); ctx.mark_nontrivial(); }
         // both vectors are what an outside observer computes from the optimizer's own cost
@@ -726,6 +783,7 @@ struct Interp : World<Spline, TM, SM>
         }
         // the workspace is left at x
         {
+            if (!w) SIM_CHECK(H.o->getOptimalSpline() != nullptr, "selfcheck_restore", "after checkGradients with the built-in workspace getOptimalSpline() is null");
             const Spline &spl = w ? w->spline : *H.o->getOptimalSpline();
             Problem<DIM> q = this->decode_model(m, x);
             SIM_CHECK(bitwise_equal_vec(spl.getTimeSegments(), q.T) && bitwise_equal(spl.getSpacePoints(), q.P), "selfcheck_restore",
